@@ -16,7 +16,8 @@ PROPS_MODULE = "AslProps.C10"
 DRIVER = "c10"
 HARNESS_TIMEOUT = 900
 
-RULE = ("cases = single exchanges or one connection carrying several requests: real client <-> real server (xchg), real client -> "
+RULE = ("cases = single exchanges or one connection carrying several requests: real client <-> real server (xchg; reuse = one request "
+        "object sent several times with its framing, body and method changed in between), real client -> "
         "raw peer (cwire/cread), raw client -> real server (raw) over loopback TCP; non-trivial = distinct case that moves at "
         "least one header or one body byte in some direction")
 
@@ -1236,7 +1237,12 @@ LEVEL_TEXT = ("Proved in Lean 4 about the executable model AslModel.HttpFrame (t
               "zeros allowed; the repaired reader refuses longer ones), payload below 2^31 bytes; header_lookup_case_insensitive; range_spec — putFile's "
               "range arithmetic (first position inside the file, last position cut to the end of the file: RFC 7233 2.1); partial_io_complete / partial_read_complete — the blocking Socket loops under every partial-transfer "
               "schedule; interleaving_local / interleaving_independent — in the model, where a handler turn is atomic and touches only its "
-              "own connection, every schedule gives each connection the answers of serving it alone. The model is tied to the real "
+              "own connection, every schedule gives each connection the answers of serving it alone; reused_request_message / "
+              "reused_request_length_rederived / reused_request_roundtrip — a request object that is sent again: whatever Content-Length "
+              "an earlier put() or send left in its dictionary (stale, or removed by a chunked send), Http::request derives the length "
+              "anew for a non-empty body, the message is that of a fresh object and the handler reads exactly this send's body (the op "
+              "reuse runs 2..5 sends of ONE HttpRequest with framing, body and method changed in between against the real server). "
+              "The model is tied to the real "
               "library on every run by the correspondence check over loopback TCP (real client, real server, raw-socket peers on either "
               "side, every op compared with the compiled model) and the block sizes by the translator.")
 LEVEL_NOTE = ("Model lemmas, not property clauses (one-step unfoldings of model definitions, listed for the reader of the "
